@@ -19,6 +19,12 @@ if ! $GO build -overlay $OV -tags verif -o .build/C30 ./checks/c30 2>.build/C30.
   echo "HARNESS-ERROR: build of C30 (go1.26.8 + map-order overlay) failed" >&2
   exit 2
 fi
+# free-running -race build of the same binary for the race companion space
+if ! $GO build -race -overlay $OV -tags verif -o .build/C30race ./checks/c30 2>.build/C30race.buildlog; then
+  cat .build/C30race.buildlog >&2
+  echo "HARNESS-ERROR: -race build of C30 failed" >&2
+  exit 2
+fi
 args=(); replay=""
 while [ $# -gt 0 ]; do
   case "$1" in
